@@ -20,7 +20,9 @@ RULE = ("one evaluation = (match program, subject). Programs have 1-5 cases; eac
         "an IR of depth <= 3 over literal, capture, _, dotted value, sequence (list/tuple, #* rest), mapping "
         "(#** rest), class (harness classes with __match_args__, dotted class, int/str/float/list/dict/bool; "
         "positional and keyword sub-patterns), |, :as (top level, inside |, inside sequences/mappings/class "
-        "arguments) and keyword patterns; optional :if guards, 40% of them statement-producing; bodies log "
+        "arguments) and keyword patterns; literal patterns include string/bytes literals spelled like None/True/"
+        "False/_ (also as mapping keys, with the corresponding subjects); optional :if guards, 40% of them "
+        "statement-producing, 30% bare literal models of every literal kind (falsy and truthy); bodies log "
         "the case index and return the bound values; module scope and function scope. Subjects are "
         "instantiations of a pattern of the program (exact, or perturbed: literal changed, element "
         "dropped/added, container or class changed) or random values. Non-trivial = some pattern of the "
@@ -109,15 +111,26 @@ def env(tr):
 
 LITS = [("0", "0"), ("1", "1"), ("2", "2"), ("-1", "-1"), ("'a'", '"a"'), ("'s'", '"s"'), ("''", '""'),
         ("None", "None"), ("True", "True"), ("False", "False"), ("2.5", "2.5"), ("1.0", "1.0"),
-        ("b'x'", 'b"x"'), ("2j", "2j")]
+        ("b'x'", 'b"x"'), ("2j", "2j"), ("0.0", "0.0"), ("0j", "0j")]
+# string / bytes literals spelled like the constants and the wildcard: they are ordinary value patterns
+CONSTLIKE = [("'None'", '"None"'), ("'True'", '"True"'), ("'False'", '"False"'), ("'_'", '"_"'), ("''", '""'),
+             ("b'None'", 'b"None"'), ("b'True'", 'b"True"'), ("b''", 'b""')]
 RANDV = ["0", "1", "2", "-1", "True", "False", "None", "1.0", "2.5", "'a'", "'s'", "''", "b'x'", "[]", "[1]",
          "[1, 2]", "(1, 2)", "(1,)", "{}", "{'k': 1}", "{'k': 1, 'j': 2}", "Point(1, 2)", "Point(0, 0)",
          "P3(1, 2, 3)", "NoArgs()", "range(3)", "{1, 2}", "2j", "'abc'", "KW('foo')", "[[1, 2], 'a']",
-         "{'k': [1, 2], 1: 'a'}", "Point([1], {'k': 1})"]
+         "{'k': [1, 2], 1: 'a'}", "Point([1], {'k': 1})",
+         "'None'", "'True'", "'False'", "'_'", "b'None'", "b''", "['None', 'True']", "{'None': None, 'True': 1}"]
 NAMEPOOL = ["x", "y", "z", "w", "my-v"]
 # Hy's mapping-pattern keys are literal models only (str/int/float/complex/bytes); None/True/False and
 # dotted values, which Python also allows as keys, cannot be written and are outside the workload
-MAPKEYS = [("'k'", '"k"'), ("'j'", '"j"'), ("1", "1"), ("'n'", '"n"'), ("b'x'", 'b"x"')]
+MAPKEYS = [("'k'", '"k"'), ("'j'", '"j"'), ("1", "1"), ("'n'", '"n"'), ("b'x'", 'b"x"'),
+           ("'None'", '"None"'), ("'True'", '"True"'), ("'_'", '"_"')]
+# literal guards of every literal kind (python text, hy text), falsy and truthy
+RAWGUARDS = [("0", "0"), ("1", "1"), ("''", '""'), ("'s'", '"s"'), ("[]", "[]"), ("[1]", "[1]"), ("None", "None"),
+             ("False", "False"), ("True", "True"), ("0.0", "0.0"), ("2.5", "2.5"), ("{}", "{}"),
+             ("{'k': 1}", '{"k" 1}'), ("()", "#()"), ("(1,)", "#(1)"), ("b''", 'b""'), ("b'x'", 'b"x"'),
+             ("0j", "0j"), ("2j", "2j"), ("'None'", '"None"'), ("'False'", '"False"'), ("'0'", '"0"'),
+             ("set()", "(set)"), ("{1}", "#{1}")]
 KWDS = ["foo", "bar"]
 
 
@@ -153,7 +166,7 @@ def gen(rng, depth, names, in_or=False):
     if depth == 0 and len(names) > 1:
         return {"k": "seq", "br": "list", "items": [{"k": "cap", "n": n} for n in names]}
     if k == "lit":
-        v, h = rng.choice(LITS)
+        v, h = rng.choice(CONSTLIKE) if rng.random() < 0.3 else rng.choice(LITS)
         return {"k": "lit", "v": v, "hy": h}
     if k == "wild":
         return {"k": "wild"}
@@ -399,6 +412,9 @@ def py_guard_expr(g):
 
 
 def hy_guard(g):
+    if g["e"] == "raw":
+        # a bare literal model as the guard (not wrapped in a logging call)
+        return f"(do (setv gtmp{g['k']} 1) {g['c'][1]})" if g["stmt"] else g["c"][1]
     e = hy_guard_expr(g)
     if g["stmt"]:
         return f"(do (setv gtmp{g['k']} {e}) (L {g['k']} gtmp{g['k']}))"
@@ -406,6 +422,8 @@ def hy_guard(g):
 
 
 def py_guard(g):
+    if g["e"] == "raw":
+        return g["c"][0]
     return f"L({g['k']}, {py_guard_expr(g)})"
 
 
@@ -503,9 +521,12 @@ def inst(rng, p, q):
 def perturb(rng, p):
     k = p["k"]
     if k == "lit":
-        same_eq = {"1": ["True", "1.0"], "0": ["False", "0.0"], "True": ["1"], "False": ["0"], "1.0": ["1"],
-                   "None": ["False", "0"], "''": ["b''", "()"], "'a'": ["b'a'", "['a']"]}
-        return rng.choice(same_eq.get(p["v"], []) + [rng.choice(LITS)[0]])
+        same_eq = {"1": ["True", "1.0"], "0": ["False", "0.0"], "True": ["1", "'True'"], "False": ["0", "'False'"],
+                   "1.0": ["1"], "None": ["False", "0", "'None'"], "''": ["b''", "()"], "'a'": ["b'a'", "['a']"],
+                   "'None'": ["None", "b'None'", "'none'"], "'True'": ["True", "b'True'"],
+                   "'False'": ["False", "''"], "'_'": ["'a'", "None"], "b'None'": ["'None'", "None"],
+                   "b'True'": ["True", "'True'"], "b''": ["''", "None"]}
+        return rng.choice(same_eq.get(p["v"], []) + [rng.choice(LITS + CONSTLIKE)[0]])
     if k == "seq":
         elts = [inst(rng, i, 0) for i in p["items"] if i["k"] != "star"]
         r = rng.random()
@@ -543,6 +564,8 @@ def perturb(rng, p):
 def gen_guard(rng, names, k):
     r = rng.random()
     stmt = rng.random() < 0.4
+    if rng.random() < 0.3:
+        return {"e": "raw", "c": list(rng.choice(RAWGUARDS)), "stmt": stmt and rng.random() < 0.5, "k": k}
     if not names or r < 0.3:
         return {"e": "const", "v": rng.choice(["True", "False", "True"]), "stmt": stmt, "k": k}
     n = rng.choice(names)
@@ -691,6 +714,18 @@ def evaluate(case):
         classes.append("guard")
     if any(g["stmt"] for g in guards):
         classes.append("guard:statement")
+    for g in guards:
+        if g["e"] == "raw":
+            falsy = not eval(g["c"][0])
+            classes.append("guard:literal-" + ("falsy" if falsy else "truthy") + ("-statement" if g["stmt"] else ""))
+    constlike = {v for v, _ in CONSTLIKE}
+    if any(n["k"] == "lit" and n["v"] in constlike for c in prog["cases"] for n in walk(c["p"])):
+        classes.append("pat:string-spelled-like-constant")
+    if any(n["k"] == "map" and any(kk[0] in constlike for kk, _ in n["items"])
+           for c in prog["cases"] for n in walk(c["p"])):
+        classes.append("pat:mapping-key-spelled-like-constant")
+    if any(any(v in spec for v in ("'None'", "'True'", "'False'", "'_'", "b'None'")) for spec in case["subjects"]):
+        classes.append("subject:string-spelled-like-constant")
     if prog["subj"] == "stmt":
         classes.append("subject:statement")
     nontrivial = maxdepth >= 2 or bool(guards) or bool(kinds & {"as", "or"})
